@@ -1234,6 +1234,16 @@ class _Tree(_ArithmeticMixin, _Base):
             child = data.pop()
             self._data.append(_TreeItem(key, child))
 
+    def __copy__(self):
+        # A shallow copy shares the children.  It must not go through
+        # __reduce__: when the C extension is importable that names the C
+        # class, whose __setstate__ cannot adopt our (Python) children.
+        new = type(self)()
+        state = self.__getstate__()
+        if state is not None:
+            new.__setstate__(state)
+        return new
+
     def _assert(self, condition, message):
         if not condition:
             raise AssertionError(message)
